@@ -148,4 +148,36 @@ def replay(w):
 
 
 def validate(witnesses):
-    return {'checked': 0, 'agree': 0, 'skipped': len(witnesses), 'disagree': []}
+    """The engine found the results independent of pool size / environment / call history on these
+    paths: the real build (real worker processes, real caches) must agree bit for bit."""
+    checked = agree = skipped = 0
+    disagree = []
+    ref = {}
+    budget = {'pool_size': 5, 'schedule': 2, 'cache': 3}
+    for w in witnesses:
+        nt = w.get('notes') or {}
+        kind = nt.get('kind')
+        if budget.get(kind, 0) <= 0:
+            skipped += 1
+            continue
+        budget[kind] -= 1
+        try:
+            if kind == 'cache':
+                r = _cache_replay(nt)
+                bad = r['observed'] if r['reproduced'] else None
+            else:
+                K = int(nt.get('K', 2))
+                if K not in ref:
+                    ref[K] = _run(K, None, 1)
+                env, nproc = nt.get('env'), int(nt.get('nproc', max(K, 2)))
+                if kind == 'schedule':
+                    env, nproc = '1', max(K, 2)
+                bad = _same(ref[K], _run(K, env, nproc))
+        except Exception as exc:
+            bad = 'raised ' + repr(exc)
+        checked += 1
+        if bad:
+            disagree.append({'notes': nt, 'difference': bad})
+        else:
+            agree += 1
+    return {'checked': checked, 'agree': agree, 'skipped': skipped, 'disagree': disagree[:5]}
